@@ -157,7 +157,7 @@ def run(c):
         with open(path) as f:
             lines = [l for l in f if l.strip()]
         enumerated[comp] = dict(cfg=cfg, histories=len(lines))
-        limit = c.pick(dict(pool=500, flagged=700), dict(pool=5000, flagged=5000))[comp]
+        limit = c.pick(dict(pool=400, flagged=600), dict(pool=5000, flagged=5000))[comp]
         if len(lines) > limit:
             lines = rnd.sample(lines, limit)
             enumerated[comp]["sampled"] = limit
@@ -190,7 +190,7 @@ def run(c):
                         distinct.add(hash((comp, re.sub(r'"k":\d+,', "", "".join(cur)))))
     results = {}
     with ThreadPoolExecutor(max_workers=2) as ex:
-        vfut = {comp: ex.submit(validate, c, module, traces[comp], 3)
+        vfut = {comp: ex.submit(validate, c, module, traces[comp], c.pick(2, 3))
                 for comp, module in (("pool", "SyncedPoolTrace"), ("flagged", "FlaggedTrace"))}
         vres = {comp: f.result() for comp, f in vfut.items()}
     for comp in ("pool", "flagged"):
